@@ -162,7 +162,28 @@ let serve_side clients obs_cls =
              Printf.sprintf "%s=[%s]" (show_chars nm) (String.concat " " (List.map show_answer a))) cls)) in
   (ok, detail)
 
+(* permission bits and process umask: the Coq trees carry no modes; this part of the
+   observation is judged by the model-free predicate "concurrently = alone"
+   (Concurrent.dav_spec_ok), with "the umask changed" in the place of its hang flag *)
+let split_modes obs =
+  match obs with
+  | L (A "cobs" :: stray :: hang :: rest) ->
+    let um_changed = List.exists (function L [A "um"; b; a] -> int_ b <> int_ a | _ -> false) rest in
+    let cls = List.filter (function L (A "cl" :: _) -> true | _ -> false) rest in
+    let pairs = List.filter_map (function
+        | L [A "cl"; _; _; _; _; L cm; L am] -> Some (List.map str cm, List.map str am)
+        | _ -> None) cls in
+    let plain = List.map (function
+        | L [A "cl"; co; ct; ao; at; _; _] -> L [A "cl"; co; ct; ao; at]
+        | x -> x) cls in
+    (L (A "cobs" :: stray :: hang :: plain), um_changed, pairs)
+  | _ -> (obs, false, [])
+
 let conc transport clients obs =
+  let (obs, um_changed, mode_pairs) = split_modes obs in
+  let modes_ok = dav_spec_ok um_changed mode_pairs in
+  if um_changed then bump "conc_umask_changed";
+  if not modes_ok then bump "conc_modes_differ";
   let cs = List.map (function
       | L [A "client"; nm; tree; L ops] -> { cl_name = str nm; cl_tree = node_of tree; cl_ops = List.map op_of ops }
       | _ -> raise (Parse_error "client")) clients in
@@ -196,9 +217,9 @@ let conc transport clients obs =
     let sem_ok = conc_agrees cs o in
     if not sem_ok then bump "conc_sem_model_disagrees";
     if not serve_ok then bump "conc_serve_model_disagrees";
-    let agree = sem_ok && serve_ok and spec = conc_spec_ok o in
+    let agree = sem_ok && serve_ok && modes_ok and spec = conc_spec_ok o && modes_ok in
     let detail =
-      if agree then "" else serve_detail ^ " ;; " ^ begin
+      if agree then "" else (if modes_ok then "" else if um_changed then "the process umask was changed by the workload ;; " else "permission bits of the client's collection differ between the concurrent run and the run alone ;; ") ^ serve_detail ^ " ;; " ^ begin
         let (_, outs) = expected cs in
         let per i = List.filter_map (fun (j, x) -> if j = nat_of_int i then Some (show_out x) else None) outs in
         String.concat " | " (List.mapi (fun i _ -> Printf.sprintf "client%d model=[%s]" i (String.concat " " (per i))) cs)
